@@ -4,8 +4,9 @@ import QeepProps.C01w
 import QeepProps.C01p
 import QeepProps.C01q
 import QeepProps.C01u
+import QeepProps.C01t
 /-! C01 — all property theorems: the base file `C01` (order, adjoint equations, cost, reachable heaps), `C01x` (graph-level
 chain rule: reverse accumulation is the adjoint of tangent propagation) and `C01y` (a fully discharged end-to-end instance:
 element-wise chains of any length — the gradient left on the leaf is the Mathlib derivative of the composed function),
 `C01z` / `C01w` (what a walk leaves on ANY tensor of ANY reachable heap is the sum of what its consumers deliver:
-`final_pairing`, `grad_root`, `grad_single`, `grad_two`, `grad_list`). `C01p` (progress: `backprop_ok` — if every rule met on the walk accepts gradients of the shape its tensor has, `BackPropagate` returns without error). `C01q` (`grad_path`: a tensor whose only consumer is its predecessor on a path of back edges receives the rules of the path applied in order). `C01u` (`mul_self_backprop`: the same tensor as both operands, `x.Mul(x)` — `x.Gradient() = 2x`). -/
+`final_pairing`, `grad_root`, `grad_single`, `grad_two`, `grad_list`). `C01p` (progress: `backprop_ok` — if every rule met on the walk accepts gradients of the shape its tensor has, `BackPropagate` returns without error). `C01q` (`grad_path`: a tensor whose only consumer is its predecessor on a path of back edges receives the rules of the path applied in order). `C01u` (`mul_self_backprop`: the same tensor as both operands, `x.Mul(x)` — `x.Gradient() = 2x`). `C01t` (`grad_double`: one consumer with two back edges into the same tensor; `elmax_self_backprop`: `x.ElMax(x)`). -/
